@@ -88,6 +88,62 @@ def complex_lines_stream(ctx, n):
                          {"residual of points of the lines": float(res), "components": comp[1:3] if comp[0] != "ok" else [np.round(np.asarray(x.array), 6).tolist() for x in comp[1]]}, replay=[desc])
 
 
+def complex_planes_stream(ctx, n):
+    """rank-2 quadrics of space whose two planes are complex (conjugate pairs x ± i c y = 0, also given by the real matrix):
+    degenerate, components = exactly the two planes"""
+    import geometer as g
+    from geometer.curve import Quadric
+    rng = ctx.rng
+    for k in range(n):
+        c = float(rng.choice([1, 2, 3]))
+        i, j = rng.sample(range(4), 2)
+        e, f = np.zeros(4, dtype=complex), np.zeros(4, dtype=complex)
+        e[i], f[i] = 1.0, 1.0
+        e[j], f[j] = 1j * c, -1j * c
+        how = rng.choice(["from_planes", "matrix"])
+        desc = f"complex plane pair {e.tolist()} / {f.tolist()} given by {how}"
+        ctx.case(desc)
+        ctx.count("planes:complex")
+        def run():
+            q = Quadric.from_planes(g.Plane(e), g.Plane(f)) if how == "from_planes" else Quadric(np.real(np.outer(e, f) + np.outer(f, e)))
+            return bool(q.is_degenerate), [np.asarray(x.array) for x in q.components]
+        r = call_impl(run)
+        if r[0] != "ok" or r[1][0] is not True or len(r[1][1]) != 2 or not match_set(r[1][1], [e, f], 1e-7):
+            ctx.disagree("C15:planes:complex", desc, [e.tolist(), f.tolist()], r[1:3] if r[0] != "ok" else [np.round(x, 5).tolist() for x in r[1][1]], replay=[desc])
+
+
+def homothetic_conics_stream(ctx, n):
+    """two non-degenerate conics with proportional quadratic parts (translated hyperbolas x y = c, translated parabolas, circles):
+    every returned point lies on both, and the known common points are among them"""
+    import geometer as g
+    rng = ctx.rng
+    for k in range(n):
+        kind = rng.choice(["xy", "xy", "parabola"])
+        dx, dy = float(rng.choice([1, -1, 2])), float(rng.choice([2, -2, 1, 3]))
+        if kind == "xy":
+            c = float(rng.choice([1, 2, -1]))
+            M = lambda u, v: np.array([[0, .5, -v / 2], [.5, 0, -u / 2], [-v / 2, -u / 2, u * v - c]])      # (x - u)(y - v) = c
+            A, B = M(0.0, 0.0), M(dx, dy)
+            known = [np.array([1.0, 0, 0]), np.array([0, 1.0, 0])]                                         # the two common points at infinity
+        else:
+            M = lambda u, v: np.array([[1.0, 0, -u], [0, 0, -.5], [-u, -.5, u * u + v]])                   # y - v = (x - u)^2
+            A, B = M(0.0, 0.0), M(dx, dy)
+            known = [np.array([0, 1.0, 0])]
+        if rng.random() < 0.5:
+            A, B = B, A
+        desc = f"conics with proportional quadratic parts ({kind}, shift ({dx},{dy})): {A.tolist()} / {B.tolist()}"
+        ctx.case(desc)
+        ctx.count("conic-conic:homothetic:" + kind)
+        r = call_impl(lambda: [np.asarray(p.array) for p in g.Conic(A).intersect(g.Conic(B))])
+        ok = r[0] == "ok" and 1 <= len(r[1]) <= 4 and all(np.all(np.isfinite(p)) for p in r[1])
+        if ok:
+            res = lambda M_, p: abs(p @ M_ @ p) / (np.linalg.norm(p) ** 2 * np.linalg.norm(M_))
+            ok = all(res(A, p) <= 1e-6 and res(B, p) <= 1e-6 for p in r[1]) and all(any(proj_close_nn(q, p, 1e-6) for p in r[1]) for q in known)
+        if not ok:
+            ctx.disagree("C15:conic-conic:homothetic:" + kind, desc, "points on both conics, including " + str([q.tolist() for q in known]),
+                         r[1:3] if r[0] != "ok" else [np.round(p, 5).tolist() for p in r[1]], replay=[desc])
+
+
 def planes_stream(ctx, n):
     import geometer as g
     from geometer.curve import Quadric
@@ -288,6 +344,8 @@ def touching_stream(ctx, n):
 
 
 def correspondence(ctx):
+    complex_planes_stream(ctx, ctx.budget(30, 300))
+    homothetic_conics_stream(ctx, ctx.budget(40, 400))
     complex_lines_stream(ctx, ctx.budget(50, 500))
     touching_stream(ctx, ctx.budget(30, 300))
     moved_stream(ctx, ctx.budget(40, 400))
